@@ -595,6 +595,17 @@ void h_n_swap(void) { ARBF(0, a); ARBF(1, b); oview_t oa = fview_of(&a), ob = fv
   INVF(0, a); INVF(1, b); LEAKFREE(0); VF_ASSERT(oview_eq(fview_of(&a), ob) && oview_eq(fview_of(&b), oa), "swap exchanges the callables over all four (empty, engaged) pairs");
   DESTROYF_(0, a); INVF(1, b); DESTROYF_(1, b); LEAKFREE(0); VF_REACH(); }
 
+/*@GROUP name=n_widen props=C03,C02 kind=F unwind=7 objbits=12@*/
+void h_n_widen(void) { /* inplace_function<int(int),16,1>(inplace_function<int(int),8,1> const& / &&): the converting constructors */
+  ARBF(1, s); VF_INPUT(struct etl_inplace_function_int_int_16_1, t); VF_INPUT_BOOL(mv); VF_INPUT(int, a); oview_t os = fview_of(&s); oview_t em; em.has = 0;
+  vf_region_set(0, (FN *)&t._storage, sizeof t._storage, 1); vf_region_live_prefix(0, 0, 3);
+  if (mv) tn_widen_move(&t, &s); else tn_widen_copy(&t, &s);
+  VF_ASSERT((t._vtable != VT_EMPTY) == os.has && vf_region_is_prefix(0, os.has, 3), "C03: the target holds a live callable exactly when the source did");
+  INVF(1, s); LEAKFREE(0);
+  VF_ASSERT(oview_eq(fview_of(&s), mv ? em : os), "converting copy leaves the source's callable alive and unchanged; converting move empties the source");
+  if (os.has) { VF_ASSERT(((FN *)&t._storage)->id == os.id && tnw_call(&t, a) == (a & 1) + os.id, "the widened target calls an equivalent callable"); }
+  DESTROYF_(1, s); tnw_dtor(&t); VF_ASSERT(vf_all_dead(0), "C03: nothing alive once the owner is destroyed"); LEAKFREE(0); VF_REACH(); }
+
 /*@GROUP name=n_self props=C03,C02 kind=F unwind=7 objbits=12@*/
 void h_n_self(void) { ARBF(0, a); oview_t oa = fview_of(&a); VF_INPUT(unsigned char, which); __CPROVER_assume(which <= 2);
   VF_KNOWN(C03_ipf_self_swap, which == 2 && oa.has);
